@@ -21,6 +21,8 @@ Inductive c11case :=
         (n : N) (err : option cerr) (calls : list (N * N * Z)) (wstart : Z) (window : list N)
 | CBigR (msize cs : N) (a c lenp : N) (off base : Z) (fa fc flen : N) (tape : list (N * option cerr))
         (n : N) (err : option cerr) (calls : list (N * N * Z)) (buf_after : list N)
+(* the payload size the client uses after negotiating msize *)
+| CPayload (msize cs : N)
 (* client.ReadAt *)
 | CRead (msize cs : N) (p0 : list N) (off : Z) (base : Z) (file0 : list N) (tape : list rans)
         (n : nat) (err : option cerr) (calls : list ocall) (buf_after : list N).
@@ -69,6 +71,7 @@ Definition agrees (c : c11case) : bool :=
       | CPanic => panicked
       | CFuel => false
       end
+  | CPayload msize cs => (cs =? payload_of msize)%N
   | CBigW msize cs _ _ lenp off tape _ n err calls _ _
   | CBigR msize cs _ _ lenp off _ _ _ _ tape n err calls _ =>
       let tape' := map (fun '(k, e) => (N.to_nat k, e)) tape in
@@ -134,13 +137,16 @@ Definition property_holds (c : c11case) : bool :=
       (let x := (n + stored_by_failure calls)%nat in
        list_eqb N.eqb (firstn x (skipn (Z.to_nat (off - wstart)) window)) (firstn x p)) &&
       (if all_full calls then (n =? length p)%nat && oerr_eqb err None else true)
+  | CPayload msize cs =>
+      (* every chunk within the payload limit: a full Twrite (23 bytes of header) and a full Rread (11) fit msize *)
+      (1 <=? cs)%N && (cs + 23 <=? msize)%N
   | CBigW _ _ a c lenp off _ stored n _ _ wstart window =>
       let x := (N.to_nat n + N.to_nat stored)%nat in
       (n <=? lenp)%N &&
       list_eqb N.eqb (firstn x (skipn (Z.to_nat (off - wstart)) window)) (firstn x (pattern a c lenp))
   | CBigR _ _ a c lenp off base fa fc flen _ n err _ buf_after =>
       let nn := N.to_nat n in
-      (n <=? lenp)%N && (base <=? off)%Z && (off + Z.of_nat nn <=? base + Z.of_N flen)%Z &&
+      (n <=? lenp)%N && ((n =? 0)%N || (base <=? off)%Z && (off + Z.of_nat nn <=? base + Z.of_N flen)%Z) &&
       list_eqb N.eqb (firstn nn buf_after) (firstn nn (skipn (Z.to_nat (off - base)) (pattern fa fc flen))) &&
       list_eqb N.eqb (skipn nn buf_after) (skipn nn (pattern a c lenp)) &&
       (if oerr_eqb err (Some CEOF) then (n <? lenp)%N else true) &&
